@@ -16,7 +16,8 @@ FMT = "fmt:a"
 TARGETS = ["store_new", "store_dup_unref", "store_additional", "store_bytesio", "tag_unref", "tag_shared",
            "tag_first_noobj", "delete_sole", "delete_shared", "delete_with_meta", "smeta_new",
            "smeta_overwrite", "dmeta_one", "dmeta_all", "store_rebind", "tag_rebind", "delete_listed_first",
-           "delete_listed_middle"]
+           "delete_listed_middle",
+           "delete_refs_without_object"]
 
 
 def prerequisites(kind):
@@ -43,6 +44,8 @@ def prerequisites(kind):
         "dmeta_all": [{"op": "smeta", "pid": T, "fmt": FMT, "d": 0}, {"op": "smeta", "pid": T, "fmt": None, "d": 1}],
         "store_rebind": [{"op": "store", "pid": T, "c": 0}],
         "tag_rebind": [{"op": "store", "pid": T, "c": 0}],
+        # a partial reference state the public API itself creates: both reference files, no data object
+        "delete_refs_without_object": [{"op": "tag", "pid": T, "cid": {"of": 0}}],
     }
     return pre[kind]
 
@@ -61,6 +64,7 @@ def target_op(kind, variant=0):
         "delete_with_meta": {"op": "delete", "pid": T},
         "delete_listed_first": {"op": "delete", "pid": T},
         "delete_listed_middle": {"op": "delete", "pid": T},
+        "delete_refs_without_object": {"op": "delete", "pid": T},
         "smeta_new": {"op": "smeta", "pid": T, "fmt": FMT, "d": 1},
         "smeta_overwrite": {"op": "smeta", "pid": T, "fmt": FMT, "d": 1},
         "dmeta_one": {"op": "dmeta", "pid": T, "fmt": FMT},
